@@ -392,6 +392,14 @@ func (e *Env) ident(name string) *Val {
 			return boolVal(e.tr.cur(e.st, compUUIDFailed))
 		case "$wgWaited":
 			return boolVal(e.tr.cur(e.st, compWgWaited))
+		case "$fsState":
+			return &Val{T: nil, GhostElem: tInt, A: []string{e.tr.cur(e.st, compFsState)}}
+		case "$fsData":
+			return &Val{T: nil, GhostElem: tInt, A: []string{e.tr.cur(e.st, compFsData)}}
+		case "$pathOpen":
+			return &Val{T: nil, GhostElem: tBool, A: []string{e.tr.cur(e.st, compPathOpen)}}
+		case "$decodedFrom":
+			return &Val{T: nil, GhostElem: tInt, A: []string{e.tr.cur(e.st, compDecoded)}}
 		case "$held":
 			return intVal(e.tr.cur(e.st, compHeld))
 		case "$alloc":
@@ -562,6 +570,10 @@ func (e *Env) call(n ECall) *Val {
 	case "fresh":
 		v := arg(0)
 		return boolVal("(>= " + v.A[0] + " " + e.allocOld + ")")
+	case "extEq": // extensional equality generated from the Go types of the operands
+		a := arg(0)
+		b := arg(1)
+		return boolVal(e.extEq(a, b, 0))
 	case "wf": // slice header sanity
 		v := arg(0)
 		if len(v.A) != 4 {
@@ -581,6 +593,13 @@ func (e *Env) call(n ECall) *Val {
 	case "elemaddr":
 		s := arg(0)
 		return intVal(e.tr.at(s.A[0], s.A[1], arg(1).one()))
+	case "pathJoin":
+		d := arg(0).one()
+		p := "(uf2 23 " + d + " " + arg(1).one() + ")"
+		if lit, ok := n.Args[1].(EStr); ok && !strings.HasSuffix(lit.V, ".tmp") && !strings.Contains(d, "q_") {
+			e.tr.assumeRaw(and(eq("(uf1 21 "+p+")", d), eq("(uf1 22 "+p+")", "0")))
+		}
+		return &Val{T: types.Typ[types.String], A: []string{p}}
 	case "uf1":
 		return intVal("(uf1 " + arg(0).one() + " " + arg(1).one() + ")")
 	case "uf2":
@@ -775,6 +794,18 @@ func (tr *FnCtx) resolveComps(pat string, pkg *types.Package) []Comp {
 			return []Comp{compUUIDFailed}
 		case "$wgWaited":
 			return []Comp{compWgWaited}
+		case "$fsState":
+			return []Comp{compFsState}
+		case "$fsData":
+			return []Comp{compFsData}
+		case "$pathOpen":
+			return []Comp{compPathOpen}
+		case "$filePath":
+			return []Comp{compFilePath}
+		case "$encFile":
+			return []Comp{compEncFile}
+		case "$decodedFrom":
+			return []Comp{compDecoded}
 		}
 		return nil
 	}
@@ -999,4 +1030,75 @@ func replaceToken(s, old, nw string) string {
 		i++
 	}
 	return sb.String()
+}
+
+// extEq: structural ("same configuration") equality, generated by walking the Go type:
+// basic values ==; pointers both nil or both non-nil with extEq pointees; slices same length and
+// extEq elements; maps same key set and extEq values; structs field by field. A field added to a
+// struct later is included automatically.
+func (e *Env) extEq(a, b *Val, depth int) string {
+	if depth > 6 {
+		e.fail("extEq: type nesting too deep")
+	}
+	t := a.T
+	if t == nil {
+		e.fail("extEq of untyped value")
+	}
+	w := e.tr.W
+	if w.isOpaqueNamed(t) {
+		return eq(a.one(), b.one())
+	}
+	switch u := t.Underlying().(type) {
+	case *types.Basic, *types.Interface, *types.Signature, *types.Chan:
+		return eq(a.one(), b.one())
+	case *types.Pointer:
+		pa, pb := a.one(), b.one()
+		if _, isStruct := structOf(u.Elem()); isStruct && !w.isOpaqueNamed(u.Elem()) {
+			sa := &Val{T: u.Elem()}
+			sb := &Val{T: u.Elem()}
+			for _, c := range w.cellComps(u.Elem()) {
+				sa.A = append(sa.A, sel(e.tr.cur(e.st, c), pa))
+				sb.A = append(sb.A, sel(e.tr.cur(e.st, c), pb))
+			}
+			return and(eq(eq(pa, "0"), eq(pb, "0")), implies(and(not(eq(pa, "0")), not(eq(pb, "0"))), e.extEq(sa, sb, depth+1)))
+		}
+		va := e.loadCell(e.st, u.Elem(), pa)
+		vb := e.loadCell(e.st, u.Elem(), pb)
+		return and(eq(eq(pa, "0"), eq(pb, "0")), implies(and(not(eq(pa, "0")), not(eq(pb, "0"))), e.extEq(va, vb, depth+1)))
+	case *types.Slice:
+		e.tr.n++
+		i := fmt.Sprintf("qe_%d", e.tr.n)
+		elem := func(v *Val) *Val {
+			addr := e.tr.at(v.A[0], v.A[1], i)
+			if _, isStruct := structOf(u.Elem()); isStruct && !w.isOpaqueNamed(u.Elem()) {
+				r := &Val{T: u.Elem()}
+				for _, c := range w.cellComps(u.Elem()) {
+					r.A = append(r.A, sel(e.tr.cur(e.st, c), addr))
+				}
+				return r
+			}
+			return e.loadCell(e.st, u.Elem(), addr)
+		}
+		body := e.extEq(elem(a), elem(b), depth+1)
+		return and(eq(a.A[2], b.A[2]), "(forall (("+i+" Int)) (=> (and (<= 0 "+i+") (< "+i+" "+a.A[2]+")) "+body+"))")
+	case *types.Map:
+		e.tr.n++
+		k := fmt.Sprintf("qk_%d", e.tr.n)
+		va, ina := e.mapGetPure(e.st, t, a.one(), k)
+		vb, inb := e.mapGetPure(e.st, t, b.one(), k)
+		body := and(eq(ina, inb), implies(ina, e.extEq(va, vb, depth+1)))
+		return "(forall ((" + k + " Int)) " + body + ")"
+	case *types.Struct:
+		var parts []string
+		off := 0
+		for f := 0; f < u.NumFields(); f++ {
+			ft := u.Field(f).Type()
+			n := len(w.flatten(ft))
+			parts = append(parts, e.extEq(&Val{T: ft, A: a.A[off : off+n]}, &Val{T: ft, A: b.A[off : off+n]}, depth+1))
+			off += n
+		}
+		return and(parts...)
+	}
+	e.fail("extEq: unsupported type %v", t)
+	return ""
 }
